@@ -424,6 +424,40 @@ def session_invalidation(chk):
         chk.ok(R, inst, s)
 
 
+def hash_compare_shape(chk, src, fn, rule='signature-hash-compare'):
+    """PKCS#1 v1.5 verification through the `irsavrfy` callback returns the hash value found in the signature; the caller compares it
+    with the hash it computed.  The comparison must span exactly the hash length that was handed to the callback, and one operand must
+    be the callback's output buffer."""
+    U = oblig.funit(src)
+    F = U.func(fn)
+    rsa_t = r'^i32 \(i8\*, i64, i8\*, i64, %struct\.br_rsa_public_key\*, i8\*\)'
+    vs = U.call_sites(fn, ftype=rsa_t)
+    cm = [c for c in F.calls() if (c.get('callee') or '') in ('memcmp', 'memcmp_P')]
+    inst = '%s: the recovered hash is compared with the computed one over the full hash length' % fn
+    if len(vs) != 1 or not cm:
+        chk.violation(rule, inst, F.where(), 'shape changed: %d RSA verification callbacks, %d memcmp' % (len(vs), len(cm)), key='%s %s shape' % (rule, fn))
+        return
+    v = vs[0]
+    hl = F.strip_casts(v['ops'][3])
+    outb = F.addr_of(v['ops'][5])[0]
+    okk = False
+    det = []
+    for c in cm:
+        ln = F.strip_casts(c['ops'][2])
+        bases = [F.addr_of(c['ops'][0])[0], F.addr_of(c['ops'][1])[0]]
+        same_len = ln == hl
+        if not same_len and ln['k'] == 'i' and hl['k'] == 'i':
+            a, b = F.insts[ln['v']], F.insts[hl['v']]
+            same_len = a['op'] == 'load' and b['op'] == 'load' and F.addr_of(a['ops'][0]) == F.addr_of(b['ops'][0]) and F.addr_of(a['ops'][0])[1] is not None
+        det.append('memcmp at line %s: length %s the hash length, %s the callback output' % (c.get('line'), 'is' if same_len else 'is NOT', 'uses' if outb in bases else 'does not use'))
+        if same_len and outb in bases:
+            okk = True
+    if okk:
+        chk.ok(rule, inst, F.where(cm[0]), '; '.join(det))
+    else:
+        chk.violation(rule, inst, F.where(cm[0]), '; '.join(det), key='%s %s' % (rule, fn))
+
+
 def run(tier):
     chk = report.Check('C03', tier,
                        'Static necessary conditions: in both handshake interpreters every store that sets bit 0 of application_data is preceded, on '
@@ -444,5 +478,9 @@ def run(tier):
     key_usage_rules(chk)
     resumption_rules(chk)
     session_invalidation(chk)
+    hash_compare_shape(chk, 'src/ssl/ssl_hs_client.c', 'verify_SKE_sig')
+    hash_compare_shape(chk, 'src/ssl/ssl_hs_server.c', 'verify_CV_sig')
     chk.floor('rule instances', len(chk.obls), 30)
+    from .. import lints
+    lints.length_is_boolean(chk, ['src/ssl/'])
     return chk.finish()
